@@ -90,7 +90,7 @@ type World struct {
 	CrashNodeIdx int
 	CrashAtGate  int
 	crashGateCnt int
-	OnCrash      func(node int, at GateInfo)
+	OnCrash      func(t *Task, at GateInfo)
 
 	// GateHook, when set, is called by the scheduler before each grant
 	// (gate-level scenarios use it to record the gate sequence).
@@ -308,7 +308,7 @@ func (w *World) Grant(t *Task) {
 		w.Log.Add("crash %s at %s %s", t.Name, g.Point, g.Key)
 		w.Stats.Fault("crash-hot")
 		if w.OnCrash != nil {
-			w.OnCrash(t.Node, *g)
+			w.OnCrash(t, *g)
 		}
 		w.killNodeTasks(t.Node, t)
 		return
